@@ -289,6 +289,15 @@ def run(ctx):
         okb = check_module(ctx, 'Properties_C18b')
         if not okb:
             ctx.broken_obligation('Properties_C18b.vo', getattr(ctx, 'broken', {}))
+    if os.path.exists(os.path.join(lib.COQ, 'Properties', 'Properties_C18c.v')) and listed_in_coqproject('Properties/Properties_C18c.v'):
+        # T5: refmap.c hash and load-factor test regenerated from the clang AST and re-proved equal to RefmapModel
+        from . import c01c_util
+        okl, msg = c01c_util.regen_refmap_leaves(ctx)
+        ctx.log('T5 refmap leaves: %s' % (msg if not okl else 'regenerated, Properties_C18c re-checked'))
+        if not okl:
+            w = c01c_util.LAST.get('witnesses') or []
+            if w: ctx.violation('leaf:' + w[0]['leaf'], msg, w[0])
+            else: ctx.broken_obligation('Properties_C18c.vo', dict(c01c_util.LAST, message=msg))
     mr = os.path.join(lib.ROOT, 'build', 'modelrun_refmap')
     src_m = [os.path.join(lib.ROOT, 'ocaml', 'refmap', f) for f in ('model.ml', 'driver.ml')]
     stale = not os.path.exists(mr) or any(os.path.exists(f) and os.path.getmtime(f) > os.path.getmtime(mr) for f in src_m)
